@@ -80,7 +80,7 @@ static std::pair<std::string, std::string> run_case(const Case &c, bool *outstan
 }
 
 static void campaign() {
-    int cases = A.thorough() ? 40000 : 8000;
+    int cases = A.thorough() ? 100000 : 20000;
     hg::Opts o; o.max_pairs = A.thorough() ? 12 : 8; o.max_body = 40;
     rcx::run("pairing_under_pipelining", vc::mix(A.seed * 197 + A.shard), cases, 60, [&]() -> std::optional<rcx::Fail> {
         hg::Exchange x = hg::gen_exchange(o);
